@@ -90,7 +90,7 @@ func (s *OutParams) GetParam(id string) (Param, bool) {
 func (p *RetainParams) getNode() *AstNode     { return &p.Node }
 func (s *RetainParams) File() *SourceFile     { return s.Node.Loc.File }
 func (s *RetainParams) Line() int             { return s.Node.Loc.Line }
-func (s *RetainParams) inheritComments() bool { return true }
+func (s *RetainParams) inheritComments() bool { return false }
 func (s *RetainParams) getSubnodes() []AstNodable {
 	params := make([]AstNodable, 0, len(s.Params))
 	for _, p := range s.Params {
